@@ -964,6 +964,38 @@ func (s *Sim) PredBlockedIn(name, sub string) bool {
 	return false
 }
 
+// PredAtRest is for use inside a WaitUntil predicate: true when the named goroutine (exact name)
+// is durably blocked in an operation other than the ones listed in `except` (exact site names,
+// e.g. the harness's own "sleep") — a name-free way to say "this loop is waiting for its next event".
+func (s *Sim) PredAtRest(name string, except ...string) bool {
+	for _, g := range s.all {
+		if g.Name != name {
+			continue
+		}
+		if g.state != gRunning || g.inOp == "" {
+			return false
+		}
+		for _, x := range except {
+			if g.inOp == x {
+				return false
+			}
+		}
+		return true
+	}
+	return false
+}
+
+// PredKitQuiescent is for use inside a WaitUntil predicate: true when no goroutine spawned by
+// kit code is runnable (each is done or durably blocked in an operation).
+func (s *Sim) PredKitQuiescent() bool {
+	for _, g := range s.all {
+		if !g.Client && g.state == gParked {
+			return false
+		}
+	}
+	return true
+}
+
 // PredLiveCount is for use inside a WaitUntil predicate: the number of live goroutines spawned
 // by kit code whose name contains filter.
 func (s *Sim) PredLiveCount(filter string) int {
